@@ -212,7 +212,7 @@ def declaration_step(nstate: int, op: int, which: int, badkey: int, v: int) -> b
     return hx.end(True)
 
 
-BOUNDS = {"quick": {"parameters": "0..2 (3 with length <= 1)", "values per parameter": "0..2", "kinds": "int, None, str, list, tuple, range, ndarray"},
+BOUNDS = {"quick": {"parameters": "0..2 (3 with length <= 1)", "values per parameter": "0..2", "kinds": "int, None, str, list, tuple, range, ndarray, list of ndarrays, list of lists"},
           "thorough": {"parameters": "0..3", "values per parameter": "0..3", "kinds": "int, None, str, list, tuple, range, ndarray"}}
 OUTSIDE = ["one-shot iterators/generators as values (the property speaks of re-iterable collections)", "more than 3 parameters / 3 values",
            "numpy array elements are concrete (C boundary); list/tuple/scalar elements are opaque symbolic ints"]
